@@ -740,12 +740,22 @@ func c12safe(f func() error) (err error, panicked bool) {
 // c12load decodes and verifies the way charon loads files (cluster.LoadClusterLock / cmd.loadDefinition):
 // json.Unmarshal, VerifyHashes, VerifySignatures (no execution client).
 func c12load(doc string, b []byte) (canon string, decodeErr, hashErr, sigErr error, sigPanic bool) {
+	return c12loadH(doc, b, false)
+}
+
+// c12loadH: with encodeFirst the decoded object is JSON-encoded once (result discarded) before it is verified - what a caller
+// does that logs, forwards or re-saves a file before checking it. Encoding is a read: it must not change the verdict.
+func c12loadH(doc string, b []byte, encodeFirst bool) (canon string, decodeErr, hashErr, sigErr error, sigPanic bool) {
 	if doc == "lock" {
 		var l Lock
 		if err, _ := c12safe(func() error { return json.Unmarshal(b, &l) }); err != nil {
 			return "", err, nil, nil, false
 		}
 		canon = c12canon(l)
+		if encodeFirst {
+			_, _ = c12safe(func() error { _, err := json.Marshal(l); return err })
+			_, _ = c12safe(func() error { _, err := json.Marshal(l.Definition); return err })
+		}
 		hashErr, _ = c12safe(l.VerifyHashes)
 		if hashErr != nil && c12lazySig {
 			return canon, nil, hashErr, nil, false
@@ -758,6 +768,9 @@ func c12load(doc string, b []byte) (canon string, decodeErr, hashErr, sigErr err
 		return "", err, nil, nil, false
 	}
 	canon = c12canon(d)
+	if encodeFirst {
+		_, _ = c12safe(func() error { _, err := json.Marshal(d); return err })
+	}
 	hashErr, _ = c12safe(d.VerifyHashes)
 	if hashErr != nil && c12lazySig {
 		return canon, nil, hashErr, nil, false
@@ -781,6 +794,13 @@ func c12judge(doc string, origCanon string, mut []byte) c12res {
 		return c12res{Stage: "sig", Detail: serr.Error()}
 	}
 	return c12res{Stage: "accepted"}
+}
+
+// c12judgeAfterEncode: history dimension of the tamper scenarios - the same altered file, but the decoded object is encoded once
+// before it is verified. Only evaluated for alterations that the plain load rejects by hash or signature (eager mode).
+func c12judgeAfterEncode(doc string, mut []byte) (accepted bool) {
+	_, derr, herr, serr, _ := c12loadH(doc, mut, true)
+	return derr == nil && herr == nil && serr == nil
 }
 
 // ---- cases ------------------------------------------------------------------------------------------------
@@ -875,6 +895,23 @@ func (x *c12bRun) tamper(f *c12bFix, doc string, m c12mutID, origCanon string) {
 		x.samples++
 		r.Sample(map[string]any{"case": key, "rejected_at": res.Stage, "error": res.Detail})
 	}
+	if (res.Stage == "hash" || res.Stage == "sig") && !c12lazySig {
+		// history dimension: the same altered file, encoded once between decoding and verification
+		r.Count("rejected_alterations_re_judged_after_an_encode", 1)
+		if c12judgeAfterEncode(doc, mut) {
+			confirmed := true
+			for i := 0; i < 3; i++ {
+				confirmed = confirmed && c12judgeAfterEncode(doc, mut) && c12judge(doc, origCanon, mut).Stage == res.Stage
+			}
+			if !confirmed {
+				r.Unconfirmed(key + " after-encode")
+			} else if ex, _ := c12bExempt(f.id.Version, doc, m.gpath(), m.Kind); !ex {
+				r.Violation(fmt.Sprintf("part=b kind=tamper-accepted-after-encode doc=%s version=%s variant=%s field=%s mut=%s", doc, f.id.Version, f.id.Variant+c12szSigSuffix(f.id), m.gpath(), strings.SplitN(strings.SplitN(m.Kind, "=", 2)[0], "@", 2)[0]),
+					fmt.Sprintf("%s: the altered %s %s is rejected (%s) when it is verified right after decoding, but passes VerifyHashes and VerifySignatures when the decoded object is JSON-encoded once before it is verified (encoding rewrote the stored hashes)", key, f.id.Version, doc, res.Stage),
+					c12bCase{Part: "b", Fixture: f.id, Scenario: "tamper", Doc: doc, Path: m.path(), Kind: m.Kind})
+			}
+		}
+	}
 	if res.Stage != "accepted" {
 		return
 	}
@@ -958,6 +995,70 @@ func (x *c12bRun) roundtrip(f *c12bFix, doc string) {
 			}
 			if _, derr, herr, serr, _ := c12load(doc, re); derr != nil || herr != nil || serr != nil {
 				return fmt.Sprintf("re-encoded file does not verify: decode=%v hash=%v sig=%v", derr, herr, serr), false
+			}
+			// per-validator addresses of the decoded object, one at a time: versions up to v1.4 store ONE address pair for all
+			// validators, later versions one per validator - in every version an object in which one validator's address differs
+			// from what was hashed must not verify
+			{
+				var d Definition
+				if doc == "lock" {
+					var l Lock
+					if err := json.Unmarshal(b1, &l); err != nil {
+						return "", true
+					}
+					d = l.Definition
+				} else if err := json.Unmarshal(b1, &d); err != nil {
+					return "", true
+				}
+				for i := range d.ValidatorAddresses {
+					for fld := 0; fld < 2; fld++ {
+						d2 := d
+						d2.ValidatorAddresses = append([]ValidatorAddresses(nil), d.ValidatorAddresses...)
+						a := &d2.ValidatorAddresses[i].FeeRecipientAddress
+						if fld == 1 {
+							a = &d2.ValidatorAddresses[i].WithdrawalAddress
+						}
+						alt, ok := c12flip(*a, 2)
+						if !ok || alt == *a {
+							continue
+						}
+						*a = alt
+						herr, _ := c12safe(d2.VerifyHashes)
+						x.r.Count("in_memory_validator_address_alterations", 1)
+						if herr == nil {
+							return fmt.Sprintf("the decoded definition with the %s of validator %d (of %d) altered in memory still passes VerifyHashes",
+								[]string{"fee recipient address", "withdrawal address"}[fld], i, len(d.ValidatorAddresses)), false
+						}
+					}
+				}
+			}
+			// copies: editing and encoding a COPY of the decoded definition leaves the decoded object as it was
+			if doc == "lock" {
+				var l Lock
+				if err := json.Unmarshal(b1, &l); err != nil {
+					return "", true
+				}
+				cp := l.Definition
+				cp.Name += " (edited copy)"
+				_, _ = c12safe(func() error { _, err := json.Marshal(cp); return err })
+				if herr, _ := c12safe(l.VerifyHashes); herr != nil {
+					return "after a struct copy of the decoded lock's definition was edited and JSON-encoded, the untouched lock no longer passes VerifyHashes: " + herr.Error(), false
+				}
+				b3, err := json.Marshal(l)
+				if err != nil || c12hashFields(b3) != c12hashFields(b1) {
+					return "after a struct copy of the decoded lock's definition was edited and JSON-encoded, the untouched lock re-encodes with other hashes", false
+				}
+			} else {
+				var d Definition
+				if err := json.Unmarshal(b1, &d); err != nil {
+					return "", true
+				}
+				cp := d
+				cp.Name += " (edited copy)"
+				_, _ = c12safe(func() error { _, err := json.Marshal(cp); return err })
+				if herr, _ := c12safe(d.VerifyHashes); herr != nil {
+					return "after a struct copy of the decoded definition was edited and JSON-encoded, the untouched definition no longer passes VerifyHashes: " + herr.Error(), false
+				}
 			}
 		}
 		return "", true
